@@ -283,21 +283,21 @@ FUNCTIONS = [
     # ------------------------------------------------------------------ auth.rs
     dict(
         name="epoch", file=AUTH, fn="epoch", params=["env"], modes=BOTH,
-        requires={"safety": [], "notrap": ["inst::<DataKey, u64>(*$env, DataKey::Epoch) is Some"]},
+        requires={"safety": [], "notrap": ["inst::<DataKey, u64>($env, DataKey::Epoch) is Some"]},
         ensures=[dict(id="C08.epoch.reads_epoch", modes=BOTH,
-                      clauses=["inst::<DataKey, u64>(*$env, DataKey::Epoch) == Some(r)"])],
+                      clauses=["inst::<DataKey, u64>($env, DataKey::Epoch) == Some(r)"])],
     ),
     dict(
         name="epoch_by_signers_hash", file=AUTH, fn="epoch_by_signers_hash", params=["env", "signers_hash"], modes=BOTH,
         ensures=[dict(id="C08.epoch_by_signers_hash.reads_registry", modes=BOTH,
-                      clauses=["r matches Ok(e) ==> reg_epoch(*$env, $signers_hash) == Some(e)",
-                               "r matches Err(x) ==> reg_epoch(*$env, $signers_hash) is None && x == ContractError::InvalidSignersHash"])],
+                      clauses=["r matches Ok(e) ==> reg_epoch($env, $signers_hash) == Some(e)",
+                               "r matches Err(x) ==> reg_epoch($env, $signers_hash) is None && x == ContractError::InvalidSignersHash"])],
     ),
     dict(
         name="message_hash_to_sign", file=AUTH, fn="message_hash_to_sign", params=["env", "signers_hash", "data_hash"], modes=BOTH,
-        requires={"safety": [], "notrap": ["inst::<DataKey, BytesN<32>>(*$env, DataKey::DomainSeparator) is Some"]},
+        requires={"safety": [], "notrap": ["inst::<DataKey, BytesN<32>>($env, DataKey::DomainSeparator) is Some"]},
         ensures=[dict(id="C01.message_hash_to_sign.digest", modes=BOTH,
-                      clauses=["r.h@ == keccak(inst::<DataKey, BytesN<32>>(*$env, DataKey::DomainSeparator).unwrap()@ + $signers_hash@ + $data_hash@)"])],
+                      clauses=["r.h@ == keccak(inst::<DataKey, BytesN<32>>($env, DataKey::DomainSeparator).unwrap()@ + $signers_hash@ + $data_hash@)"])],
     ),
     dict(
         name="validate_signatures", file=AUTH, fn="validate_signatures", params=["env", "msg_hash", "proof"], modes=BOTH,
@@ -363,40 +363,40 @@ FUNCTIONS = [
     dict(
         name="validate_proof", file=AUTH, fn="validate_proof", params=["env", "data_hash", "proof"], modes=BOTH,
         requires={
-            "safety": ["gw_epochs_in_range(*$env)"],
-            "notrap": ["gw_epochs_in_range(*$env)",
-                       "gw_keys_present(*$env)",
+            "safety": ["gw_epochs_in_range($env)"],
+            "notrap": ["gw_epochs_in_range($env)",
+                       "gw_keys_present($env)",
                        "weight_sum(proof_set($proof.signers@)) <= u128::MAX",
                        "$proof.threshold > 0",
-                       "sigs_ok($proof.signers@, digest(*$env, proof_hash($proof), $data_hash@))"],
+                       "sigs_ok($proof.signers@, digest($env, proof_hash($proof), $data_hash@))"],
         },
         ensures=[
             dict(id="C01.validate_proof.sound", modes=SAFETY, clauses=[
-                "r is Ok ==> exists|hb: BytesN<32>| hb@ == proof_hash($proof) && (#[trigger] reg_epoch(*$env, hb)) is Some",
-                "r is Ok ==> quorum($proof.signers@, $proof.threshold, digest(*$env, proof_hash($proof), $data_hash@))",
+                "r is Ok ==> exists|hb: BytesN<32>| hb@ == proof_hash($proof) && (#[trigger] reg_epoch($env, hb)) is Some",
+                "r is Ok ==> quorum($proof.signers@, $proof.threshold, digest($env, proof_hash($proof), $data_hash@))",
             ]),
             dict(id="C08.validate_proof.retention", modes=SAFETY, clauses=[
                 "r is Ok ==> forall|hb: BytesN<32>| hb@ == proof_hash($proof) ==> "
-                "((#[trigger] reg_epoch(*$env, hb)) matches Some(e) && cur_epoch(*$env) - e <= retention(*$env))",
+                "((#[trigger] reg_epoch($env, hb)) matches Some(e) && cur_epoch($env) - e <= retention($env))",
             ]),
             dict(id="C08.validate_proof.latest_flag", modes=SAFETY, clauses=[
                 "r matches Ok(b) ==> forall|hb: BytesN<32>| hb@ == proof_hash($proof) ==> "
-                "((#[trigger] reg_epoch(*$env, hb)) matches Some(e) && b == (e == cur_epoch(*$env)))",
+                "((#[trigger] reg_epoch($env, hb)) matches Some(e) && b == (e == cur_epoch($env)))",
             ]),
             dict(id="C08.validate_proof.complete", modes=NOTRAP, clauses=[
-                "forall|hb: BytesN<32>| hb@ == proof_hash($proof) ==> ((#[trigger] reg_epoch(*$env, hb)) matches Some(e) ==> "
-                "(cur_epoch(*$env) - e <= retention(*$env) "
+                "forall|hb: BytesN<32>| hb@ == proof_hash($proof) ==> ((#[trigger] reg_epoch($env, hb)) matches Some(e) ==> "
+                "(cur_epoch($env) - e <= retention($env) "
                 "==> !(r matches Err(ContractError::OutdatedSigners)) && !(r matches Err(ContractError::InvalidSignersHash))))",
             ]),
             dict(id="C01.validate_proof.complete", modes=NOTRAP, clauses=[
-                "forall|hb: BytesN<32>| hb@ == proof_hash($proof) ==> ((#[trigger] reg_epoch(*$env, hb)) matches Some(e) ==> "
-                "(cur_epoch(*$env) - e <= retention(*$env) && signed_sum($proof.signers@) >= $proof.threshold "
-                "==> r == Ok::<bool, ContractError>(e == cur_epoch(*$env))))",
+                "forall|hb: BytesN<32>| hb@ == proof_hash($proof) ==> ((#[trigger] reg_epoch($env, hb)) matches Some(e) ==> "
+                "(cur_epoch($env) - e <= retention($env) && signed_sum($proof.signers@) >= $proof.threshold "
+                "==> r == Ok::<bool, ContractError>(e == cur_epoch($env))))",
             ]),
         ],
         vacuity_extra={"notrap": [
-            "exists|hb: BytesN<32>, e: u64| hb@ == proof_hash($proof) && reg_epoch(*$env, hb) == Some(e) "
-            "&& cur_epoch(*$env) - e <= retention(*$env) && signed_sum($proof.signers@) >= $proof.threshold"]},
+            "exists|hb: BytesN<32>, e: u64| hb@ == proof_hash($proof) && reg_epoch($env, hb) == Some(e) "
+            "&& cur_epoch($env) - e <= retention($env) && signed_sum($proof.signers@) >= $proof.threshold"]},
     ),
 ]
 
